@@ -31,7 +31,7 @@ ASSUMPTIONS = [
 def generate(master, index, tier):
     rng = R.rng_for(master, PROP, index)
     n = rng.choice((1, 2, 3, 5, 8, 12))
-    items = W.gen_wellformed_items(rng, n, p_filler=0.0, end_with_frame=0.8)
+    items = W.gen_wellformed_items(rng, n, p_filler=rng.choice((0.0, 0.0, 0.15)), end_with_frame=0.8)
     p_bad = rng.choice((0.2, 0.5, 1.0))
     crc_style = rng.choice(("random", "random", "const", "copy", "mixed"))
     const = rng.choice((b"\x00\x00\x00", b"\xff\xff\xff", bytes(rng.getrandbits(8) for _ in range(3))))
@@ -39,6 +39,12 @@ def generate(master, index, tier):
     for it in items:
         if it[0] == "frame":
             this_crc = bytes.fromhex(it[1])[-3:]
+        if it[0] == "filler" and rng.random() < 0.5:
+            # a too-short frame with a wrong CRC: nothing to deliver in any configuration, but it
+            # must still be consumed by its declared length in every configuration
+            raw = bytes.fromhex(it[1])
+            it[1] = (raw[:-3] + bytes([raw[-3] ^ 0x40, rng.choice((0xD3, 0x24, raw[-2])), raw[-1]])).hex()
+            it[2] += "+badcrc"
         if it[0] == "frame" and rng.random() < p_bad:
             raw = bytes.fromhex(it[1])
             for _try in range(20):
@@ -64,13 +70,15 @@ def generate(master, index, tier):
         "rawbuf": rng.choice((1, 8, 64, 8192)),
         "items": items,
         "driver": rng.choice(("iterate", "read")),
-        "opts": {"quitonerror": rng.choice((0, 1, 2)), "labelmsm": rng.choice((1, 2)), "handler": rng.random() < 0.5},
+        "opts": {"quitonerror": rng.choice((0, 1, 2)), "labelmsm": rng.choice((1, 2)), "handler": rng.choice((False, False, "method", "function", "collector", "falsy"))},
         "sched": {"seed": rng.getrandbits(48), "seg": rng.choice(("full", "byte", "small", "random", "mixed"))},
     }
 
 
 def _frames(events):
-    return [(bytes(e[1]), e[2], e[3]) for e in events if e[0] == "frame"]
+    # frames too short to carry a message number (fillers) are outside the statement: whether
+    # they are delivered differs legitimately between parsed=True (rejected) and parsed=False
+    return [(bytes(e[1]), e[2], e[3]) for e in events if e[0] == "frame" and wire.frame_identity(bytes(e[1])) is not None]
 
 
 def execute(scn):
